@@ -71,5 +71,25 @@ def run_case(case, opts):
                 ptree = problem_tree([["x", t1], ["y", t2 if fact[0].startswith("b_") else "object"]], xfact, with_fluent=True)
             out, _ = pylib.observe_problem(layout.pretty(ptree), dom)
             ev.append({"c": "ParseProblem", "h": f"p{k}", "d": "d", "tree": ptree, "out": out})
+    # a shallow copy of the domain (Domain.shallow_copy) denotes the same declarations: the relation inside the copy,
+    # between the copy's types and the original's, and the acceptance of facts by a problem parsed against the copy
+    try:
+        cp = dom.shallow_copy()
+    except Exception as e:  # noqa: BLE001
+        ev.append({"c": "Harness", "what": "shallow_copy", "exc": pylib.exc_name(e)})
+        return hist
+    ev.append({"c": "TypeMatrix", "d": "d", "via": "copy", "rows": pylib.subtype_matrix(cp)})
+    tn = sorted(dom.types)
+    ev.append({"c": "TypeMatrix", "d": "d", "via": "copy-vs-original",
+               "rows": [[a, b, bool(cp.types[a].is_sub_type(dom.types[b]))] for a in tn for b in tn]})
+    for t1 in tys:
+        for t2 in tys:
+            k += 1
+            if k % 2:
+                continue
+            fact = ([f"n_{t2}", f"o_{t1}"], [f"b_{t2}", f"o_{t1}", f"o_{t2}"], [f"u_{t2}", f"o_{t1}", "o_object"])[k % 3]
+            ptree = problem_tree(objs, fact)
+            out, _ = pylib.observe_problem(layout.pretty(ptree), cp)
+            ev.append({"c": "ParseProblem", "h": f"p{k}", "d": "d", "via": "copy", "tree": ptree, "out": out})
     ev.append({"c": "Snap", "snap": {"d": domain_digest(dom), "s0": pylib.project_state(state)}})
     return hist
